@@ -34,6 +34,9 @@ def make_handler(I, repo, cls_mod, cls_name):
     return ci, h, conn
 
 
+DECODER_EXCEPTIONS = ("AssertionError", "ValueError", "KeyError", "IndexError")
+
+
 def install_decoder(I, repo, payload_kinds, rrs=False):
     """HSTRP.from_bytes(data) becomes: raises | None | a well-formed HSTRP with symbolic type bits, S/N and one of
     the payload kinds — all alternatives are explored"""
@@ -44,8 +47,11 @@ def install_decoder(I, repo, payload_kinds, rrs=False):
     def summary(I_, fi, args, kw, bound_cls):
         st = I_.st
         if not st.choose("decoder:well-formed"):
-            if st.choose("decoder:raises"):
-                raise PathRaise("AssertionError", "garbage datagram")
+            # the exception families a byte-level decoder ends in on malformed octets: its own asserts, an undefined enumeration
+            # value, a failed table look-up, an index past the end of a truncated datagram
+            for exc in DECODER_EXCEPTIONS:
+                if st.choose(f"decoder:raises {exc}"):
+                    raise PathRaise(exc, "garbage datagram")
             return None
         bits = {b: AInt([I_.atom_form(("type", b))], isbool=True) for b in TYPE_BITS}
         pt = I_.construct(tci, [], dict(bits))
